@@ -354,12 +354,45 @@ func TestOptions(t *testing.T) {
 					pipes <- p
 				}
 			})
+			lpipes := make(chan mangos.Pipe, 4)
+			a.SetPipeEventHook(func(ev mangos.PipeEvent, p mangos.Pipe) {
+				if ev == mangos.PipeEventAttached {
+					lpipes <- p
+				}
+			})
 			_ = d.SetOption(mangos.OptionDialAsynch, false)
 			if err = d.Dial(); err != nil {
 				panic(fmt.Sprint("dial ", tr.name, err))
 			}
+			var pb mangos.Pipe
+			defer func() {
+				// the accepting side's pipe: it belongs to the listener, reports the address the listener is actually bound
+				// to (port 0 was asked for), and its two ends are the dialing side's two ends the other way round
+				select {
+				case pa := <-lpipes:
+					la, e1 := pa.GetOption(mangos.OptionLocalAddr)
+					ra, e2 := pa.GetOption(mangos.OptionRemoteAddr)
+					r.Emit("opipe", "tran", tr.name, "local", e1 == nil && la != nil, "remote", e2 == nil && ra != nil,
+						"dialer", pa.Dialer() == nil, "listener", pa.Listener() == l2, "addr", pa.Address() == l2.Address() && pa.Address() == l2.Address(),
+						"idok", pa.ID() != 0 && pa.ID() < 0x80000000)
+					if pb != nil && (tr.name == "tcp" || tr.name == "tls+tcp" || tr.name == "ws" || tr.name == "wss") {
+						lb, _ := pb.GetOption(mangos.OptionLocalAddr)
+						rb, _ := pb.GetOption(mangos.OptionRemoteAddr)
+						port := l2.Address()[strings.LastIndex(l2.Address(), ":")+1:]
+						if i := strings.Index(port, "/"); i >= 0 {
+							port = port[:i]
+						}
+						r.Emit("opipex", "tran", tr.name, "ok", fmt.Sprint(la) == fmt.Sprint(rb) && fmt.Sprint(ra) == fmt.Sprint(lb) &&
+							strings.HasSuffix(fmt.Sprint(la), ":"+port) && !strings.HasSuffix(l2.Address(), ":0"),
+							"la", fmt.Sprint(la), "ra", fmt.Sprint(ra), "lb", fmt.Sprint(lb), "rb", fmt.Sprint(rb), "bound", l2.Address())
+					}
+				case <-time.After(3 * time.Second):
+					r.Emit("opipe", "tran", tr.name, "local", false, "remote", false, "dialer", false, "listener", false, "addr", false, "idok", false)
+				}
+			}()
 			select {
 			case p := <-pipes:
+				pb = p
 				optObject(r, "pipe-"+tr.name, p)
 				// read-only facts about the connection
 				la, e1 := p.GetOption(mangos.OptionLocalAddr)
